@@ -44,7 +44,8 @@ PATTERN_CTORS = ("Call1", "Call2", "Subscript", "SubscriptT", "Sum2", "Sum3", "P
                  "Product3", "Quotient", "Power", "Cmp<", "Cmp==", "If")
 DEEP_CTORS = ("Sum2", "Product2", "Power", "Call1", "Subscript")   # thorough: all depth-3 patterns
 DEEP_LEAVES = (A, B_, C(1))
-MAX_PERM_CHILDREN = 4                                    # thorough permutes AC nodes up to this arity
+MAX_PERM_CHILDREN = 4          # thorough: all root permutations up to this arity (depth-2 patterns)
+MAX_PERM_CHILDREN_DEEP = 3     # ... for deeper patterns
 
 BRIDGED_TAGS = ("Call", "Subscript", "Sum", "Product", "Quotient", "FloorDiv", "Remainder",
                 "Power", "LeftShift", "RightShift", "BitwiseNot", "BitwiseOr", "BitwiseXor",
@@ -83,6 +84,11 @@ def patterns_depth2():
         if first_occurrence_canonical(s):
             out.append(s)
     return tuple(out)
+
+
+@lru_cache(maxsize=None)
+def depth2_set():
+    return frozenset(patterns_depth2())
 
 
 @lru_cache(maxsize=None)
@@ -215,7 +221,7 @@ def regroup_tail(s):
     return map_ac(s, lambda tag, ch: [ch[0], mk(tag, ch[1:])] if len(ch) >= 3 else ch)
 
 
-def target_variants(t, tier):
+def target_variants(t, tier, max_perm=MAX_PERM_CHILDREN):
     """The instance itself, then reordered / regrouped forms of it (deduplicated)."""
     out = [t]
 
@@ -230,10 +236,10 @@ def target_variants(t, tier):
     add(regroup_tail(fl))
     if tier == "thorough":
         # every permutation of the children of the root node (when it is a sum / product)
-        if is_nary(fl, AC_TAGS) and len(kids(fl)) <= MAX_PERM_CHILDREN:
+        if is_nary(fl, AC_TAGS) and len(kids(fl)) <= max_perm:
             for perm in itertools.permutations(kids(fl)):
                 add(mk(fl[0], perm))
-        if is_nary(t, AC_TAGS) and len(kids(t)) <= MAX_PERM_CHILDREN:
+        if is_nary(t, AC_TAGS) and len(kids(t)) <= max_perm:
             for perm in itertools.permutations(kids(t)):
                 add(mk(t[0], perm))
     return out
@@ -256,9 +262,10 @@ def instances(P, K, pool, tier, first=None):
     pools = value_pools(P, K, pool)
     if first is not None and pools:
         pools[0] = pools[0][first:first + 1]
+    max_perm = MAX_PERM_CHILDREN if P in depth2_set() else MAX_PERM_CHILDREN_DEEP
     for vals in itertools.product(*pools):
         t = instantiate(P, variables=dict(zip(K, vals)))
-        yield from target_variants(t, tier)
+        yield from target_variants(t, tier, max_perm)
 
 
 def renamings(P, K):
@@ -846,7 +853,7 @@ class C16(Check):
             "variables); targets = (i) every instance under every assignment of the candidates to "
             "the value pool {x, y, z, x+y, x*y, 2, f(x)} (quick: {x, y, x+y, 2} for nestings), each as "
             "is, with operands reversed, flattened, flattened+reversed, rotated and regrouped "
-            "(thorough: all root permutations up to 4 operands), (ii) every exact injective renaming "
+            "(thorough: all root permutations up to 4 operands, 3 for the deeper patterns), (ii) every exact injective renaming "
             "of the candidates into a b c x y z, (iii) every independently generated depth<=2 tree "
             "with the same root (leaves a x y 0 1 2, nested / 4-ary sums and products, 1-tuple "
             "indices, other function / aggregate symbols), one representative of every other root, "
